@@ -17,8 +17,8 @@ from gverif import tlc
 from gverif.common import SEED, ensure_repo
 from gverif.harness import Run
 
-NAMES = ["m", "n", "K", "f", "x", "a", "b"]
-NAME_OF = {"m1": "m", "m2": "m", "n1": "n", "k1": "K", "k2": "K", "f1": "f", "f2": "f", "x1": "x", "a1": "a", "a2": "b", "a3": "K"}
+NAMES = ["m", "n", "K", "f", "x", "a"]
+NAME_OF = {"m1": "m", "m2": "m", "n1": "n", "k1": "K", "k2": "K", "f1": "f", "f2": "f", "x1": "x", "a1": "a", "a2": "a", "a3": "K"}
 KIND_OF = {"m1": "module", "m2": "module", "n1": "module", "k1": "class", "k2": "class", "f1": "function", "f2": "function", "x1": "attribute", "a1": "alias", "a2": "alias", "a3": "alias"}
 FILE_OF = {"m1": "/c16/m.py", "m2": "/c16/m.pyi", "n1": "/c16/n.py"}
 ALIASES = ("a1", "a2", "a3")
@@ -134,6 +134,8 @@ class World:
             return "AliasResolutionError"
         except AttributeError:
             return "AttributeError"
+        except RuntimeError as exc:
+            return "RuntimeError" if "changed size during iteration" in str(exc) else "Other:RuntimeError"
         except Exception as exc:  # noqa: BLE001
             return "Other:" + type(exc).__name__
         return "ok"
@@ -212,6 +214,15 @@ class World:
             if t.aliases.get(al.path) is not al:
                 stale = [p for p, x in t.aliases.items() if x is al]
                 cause = "listed-under-old-path" if stale else ("chain-link-retargeted" if hops else "not-listed")
+                if cause == "not-listed" and pre is not None and op is not None:
+                    # was this alias listed under this path before the call, and is the call about something else?
+                    # then its entry was overwritten by the re-registration of a REMOVED alias (stale back-reference)
+                    holder = t.aliases.get(al.path)
+                    was = any(r["alias"] == a and ".".join(r["path"]) == al.path for rs in pre["backrefs"].values() for r in rs)
+                    # the entry now belongs to another alias object that does not live at this path (removed or moved away)
+                    removed = holder is not None and holder is not al and not any(r is holder and ".".join(parts) == al.path for _, r, parts in att)
+                    if was and removed and op.get("value") != a and op.get("root") != a:
+                        cause = "entry-overwritten-by-removed-alias"
                 bad.append(("I6", f"{a} (path {al.path}) is not listed in aliases of its final target {self.sid(t)}: {sorted(t.aliases)}", cause))
         if op is not None and outcome == "ok":
             key = op["key"]
@@ -336,6 +347,9 @@ def replay_transitions(run: Run, griffe, cases: list, mode: str, cap: int, rnd: 
             from gverif.common import die
 
             die(f"C16: materialise/project round trip failed: {first_diff(norm(tr['pre']), check)}")
+        # violations already present in the (materialised) pre-state belong to the transition that created
+        # them (it is enumerated on its own): only what this call adds is attributed to it
+        pre_bad = {(b[0], b[1].split(": [")[0]) for b in w.invariants(None, None, "ok")}
         outcome = w.call(tr["op"], i)
         real = norm(w.project(outcome))
         run.evaluated()
@@ -345,9 +359,12 @@ def replay_transitions(run: Run, griffe, cases: list, mode: str, cap: int, rnd: 
             run.nontrivial_case(json.dumps([tr["pre"]["members"], tr["pre"]["atarget"], tr["op"]], sort_keys=True))
         run.sample({"mode": mode, "op": tr["op"], "spec_outcome": tr["post"]["outcome"], "real_outcome": outcome, "pre_members": {c: {n: v for n, v in m.items() if v != NIL} for c, m in tr["pre"]["members"].items()}}, limit=4)
         for inv, what, *cause in w.invariants(tr["pre"], tr["op"], outcome):
+            if (inv, what.split(": [")[0]) in pre_bad:
+                continue
             run.violation(dict(sig_base, inv=inv, cause=(cause or ["-"])[0]), f"{inv} broken after {tr['op']} (mode {mode}): {what}", {"kind": "trans", "mode": mode, "transition": tr})
-        if outcome.startswith("Other:") or (outcome == "AttributeError" and tr["post"]["outcome"] != outcome):
-            run.violation(dict(sig_base, inv="exception"), f"{tr['op']} raised {outcome}", {"kind": "trans", "mode": mode, "transition": tr})
+        if outcome.startswith("Other:") or outcome == "RuntimeError" or (outcome == "AttributeError" and tr["post"]["outcome"] != outcome):
+            cause = "dict-changed-size-predicted" if (outcome == "RuntimeError" and tr["post"]["outcome"] == outcome) else outcome
+            run.violation(dict(sig_base, inv="exception", cause=cause), f"{tr['op']} raised {outcome}", {"kind": "trans", "mode": mode, "transition": tr})
         if real != norm(tr["post"]):
             drift += 1
             if drift <= 3:
@@ -368,8 +385,8 @@ def replay_histories(run: Run, griffe, cases: list, mode: str):
             run.evaluated()
             for inv, what, *cause in w.invariants(pre, step["op"], outcome):
                 run.violation({"mode": mode, "op": step["op"]["name"], "inv": inv, "cause": (cause or ["-"])[0]}, f"{inv} broken at step {i + 1} of a {len(hist) - 1}-call history (mode {mode}): {what}", {"kind": "hist", "mode": mode, "hist": hist[: i + 2]})
-            if outcome.startswith("Other:") or (outcome == "AttributeError" and step["post"]["outcome"] != outcome):
-                run.violation({"mode": mode, "op": step["op"]["name"], "inv": "exception"}, f"{step['op']} raised {outcome}", {"kind": "hist", "mode": mode, "hist": hist[: i + 2]})
+            if outcome.startswith("Other:") or outcome == "RuntimeError" or (outcome == "AttributeError" and step["post"]["outcome"] != outcome):
+                run.violation({"mode": mode, "op": step["op"]["name"], "inv": "exception", "cause": "dict-changed-size-predicted" if (outcome == "RuntimeError" and step["post"]["outcome"] == outcome) else outcome}, f"{step['op']} raised {outcome}", {"kind": "hist", "mode": mode, "hist": hist[: i + 2]})
             real = norm(w.project(outcome))
             if real != norm(step["post"]):
                 drift += 1
@@ -448,7 +465,7 @@ MODES = {
 # slices of the universe explored deeper, printing only the transitions that exercise the rarely
 # reached branches of set_member (re-targeting loop with >= 1 listed alias, implicit stub merge)
 SLICES = {
-    "retarget": ("free", dict(LOST="FALSE", TOPDOWN="FALSE", SKIP='{"m2", "f2", "x1", "a2"}', SEEDS="{3}"), 4, 5),
+    "retarget": ("free", dict(LOST="FALSE", TOPDOWN="FALSE", SKIP='{"m2", "f2", "x1"}', SEEDS="{3}"), 3, 4),
     "merge": ("free", dict(LOST="FALSE", TOPDOWN="FALSE", SKIP='{"k1", "k2", "f1", "a1", "a3"}', SEEDS="{1}"), 6, 7),
 }
 EXPECT = {"clean": [], "free": ["I6_BackrefListed"], "lost": ["I2_NoLostWrite"]}
